@@ -122,6 +122,71 @@ def classify(orig, alt_bytes):
     return 'either', alt
 
 
+def field_edits(orig):
+    '''Field-level alterations, re-encoded by the independent encoder.'''
+    out = []
+
+    def variant(name, fn):
+        b = dict(primary=dict(orig['primary']), blocks=[dict(x) for x in orig['blocks']])
+        for x in [b['primary']] + b['blocks']:
+            for k in ('span', 'crc', 'crc_ok'):
+                x.pop(k, None)
+        try:
+            fn(b)
+            out.append((name, B.encode(b)))
+        except Exception:
+            pass
+    bcb_idx = [i for (i, b) in enumerate(orig['blocks']) if b['type'] == B.T_BCB][0]
+
+    def edit_asb(fn):
+        def inner(b):
+            asb = B.dec_asb(b['blocks'][bcb_idx]['data'])
+            fn(asb)
+            b['blocks'][bcb_idx]['data'] = B.enc_asb(asb)
+        return inner
+
+    def msg_edit(fn):
+        def inner(a):
+            (rt, rv) = a['results'][0][0]
+            msg = C.loads(rv)
+            fn(msg)
+            a['results'][0][0] = (rt, C.dumps(msg))
+        return edit_asb(inner)
+    variant('ciphertext-append', lambda b: b['blocks'][-1].update(data=b['blocks'][-1]['data'] + b'!'))
+    variant('ciphertext-truncate', lambda b: b['blocks'][-1].update(data=b['blocks'][-1]['data'][:-1]))
+    variant('ciphertext-emptied', lambda b: b['blocks'][-1].update(data=b''))
+    variant('target-flags', lambda b: b['blocks'][-1].update(flags=b['blocks'][-1]['flags'] ^ 0x10))
+    variant('primary-lifetime', lambda b: b['primary'].update(lifetime=b['primary']['lifetime'] + 1))
+    variant('primary-report-to', lambda b: b['primary'].update(report_to='dtn://evil/'))
+    variant('primary-timestamp', lambda b: b['primary'].update(ts=(b['primary']['ts'][0], b['primary']['ts'][1] + 1)))
+    variant('security-source', edit_asb(lambda a: a.update(source='dtn://evil/')))
+
+    def drop_scope(a):
+        a['params'] = [p for p in a['params'] if p[0] != 5]
+        if not a['params']:
+            a['flags'] &= ~1
+    variant('scope-map-removed', edit_asb(drop_scope))
+
+    def scope_edit(a):
+        a['params'] = [p for p in a['params'] if p[0] != 5] + [(5, {0: 1, -1: 3})]
+        a['flags'] |= 1
+    variant('scope-map-edited', edit_asb(scope_edit))
+    variant('iv-altered', msg_edit(lambda m: m[1].__setitem__(5, bytes(len(m[1][5]))) if isinstance(m[1], dict) and 5 in m[1] else None))
+    variant('protected-bucket-emptied', msg_edit(lambda m: m.__setitem__(0, b'')))
+
+    def attach_old(b):
+        # the original ciphertext moves into the COSE ciphertext slot, the target block gets other octets
+        old = bytes(b['blocks'][-1]['data'])
+        msg_edit(lambda m: m.__setitem__(2, old))(b)
+        b['blocks'][-1].update(data=old[:-1] + bytes([old[-1] ^ 0x20]) if old else b'x')
+    variant('ciphertext-altered-old-one-attached', attach_old)
+    if len(B.dec_asb(orig['blocks'][bcb_idx]['data'])['targets']) > 1:
+        def swap_results(a):
+            a['results'][0], a['results'][1] = a['results'][1], a['results'][0]
+        variant('results-of-two-targets-swapped', edit_asb(swap_results))
+    return out
+
+
 def contains_window(haystack, needle, window=8):
     if len(needle) < window:
         return False
@@ -203,35 +268,37 @@ def run_case(params, known):
             viol('security-failure-not-reported', dict(keymode=keymode), 'reasons %r' % (reasons,), data, 'none')
     # (3) alterations
     if params.get('flips', True):
-        for bit in range(len(data) * 8):
-            alt = flip(data, bit)
+        alterations = [('bit %d' % bit, flip(data, bit)) for bit in range(len(data) * 8)] + field_edits(orig)
+        for (bit, (what, alt)) in enumerate(alterations):
+            if alt == data:
+                continue
             (verdict, altdec) = classify(orig, alt)
             counts[verdict] = counts.get(verdict, 0) + 1
             (world, delivered, reasons) = receive(alt, right, True)
             if world.escaped:
                 esc = world.escaped[-1]
-                viol('exception-escaped-idle-callback', dict(exc=esc[0]), esc[2], alt, 'bit %d' % bit)
+                viol('exception-escaped-idle-callback', dict(exc=esc[0]), esc[2], alt, what)
                 continue
             leaked = any(contains_window(bytes.fromhex(b[2]), plain) or (length and bytes.fromhex(b[2]) == plain)
                          for d in delivered for b in d['blocks'] if b[0] == 1)
             rejected_in_decode = bool(world.api_errors) and not delivered
             if verdict == 'must-fail':
-                keys.add('%s:%d' % (name, bit))
+                keys.add('%s:%s' % (name, what))
                 if delivered and leaked:
-                    viol('plaintext-released-after-alteration', dict(), 'bit %d' % bit, alt, 'bit %d' % bit)
+                    viol('plaintext-released-after-alteration', dict(), what, alt, what)
                 elif delivered:
-                    viol('altered-bundle-delivered', dict(), 'bit %d: delivered %r' % (bit, delivered[0]['blocks']), alt, 'bit %d' % bit)
+                    viol('altered-bundle-delivered', dict(), '%s: delivered %r' % (what, delivered[0]['blocks']), alt, what)
                 elif not rejected_in_decode and altdec['primary']['flags'] & B.FLAG_REQ_DELETION \
                         and altdec['primary']['report_to'] != 'dtn:none' and not any(r in SEC_REASONS for r in reasons):
-                    viol('security-failure-not-reported', dict(), 'bit %d: reasons %r' % (bit, reasons), alt, 'bit %d' % bit)
+                    viol('security-failure-not-reported', dict(), '%s: reasons %r' % (what, reasons), alt, what)
             elif verdict == 'must-verify':
-                keys.add('%s:%d' % (name, bit))
+                keys.add('%s:%s' % (name, what))
                 if not delivered and not rejected_in_decode:
-                    viol('unaltered-coverage-rejected', dict(), 'bit %d lies outside what the block binds (reasons %r)' % (bit, reasons), alt, 'bit %d' % bit)
+                    viol('unaltered-coverage-rejected', dict(), '%s lies outside what the block binds (reasons %r)' % (what, reasons), alt, what)
                 elif delivered:
                     got = [bytes.fromhex(b[2]) for b in delivered[0]['blocks'] if b[0] == 1]
                     if got != [plain]:
-                        viol('recovered-plaintext-differs', dict(after='outside-scope alteration'), 'bit %d' % bit, alt, 'bit %d' % bit)
+                        viol('recovered-plaintext-differs', dict(after='outside-scope alteration'), what, alt, what)
             if len(samples) < 1 and bit == 200:
                 samples.append(dict(kind=kind, length=length, bit=bit, verdict=verdict))
     kn, out_v = [], []
